@@ -48,8 +48,10 @@ void tick() {
   if (h.tick_budget >= 0 && h.ticks > h.tick_budget)
     throw sim::TickBudgetExceeded();
 }
-bool unusual(const char *) {
+bool unusual(const char *site) {
   sim::HookState &h = sim::hooks();
+  if (site[0] == 't' && site[1] == 'd') // "td_check_delayed_now": a diagnostic switch, not a fault
+    return h.td_check_delayed_now;
   if (!h.unusual_enabled)
     return false;
   h.unusual_seen++;
